@@ -2,6 +2,7 @@ package main
 
 import (
 	"context"
+	"errors"
 	"fmt"
 	"reflect"
 	"runtime"
@@ -35,6 +36,8 @@ type outcome struct {
 	dropped    int // accepted but never started (legal after cancel)
 }
 
+type causeKey struct{}
+
 // run executes one scenario and applies all four checkers; the caller keeps the violations
 // of the property it is checking.
 func run(spec Scenario) outcome {
@@ -50,6 +53,17 @@ func run(spec Scenario) outcome {
 			oc.dl, oc.hasDl = time.Now().Add(d), true
 			tm := time.AfterFunc(d, func() { oc.finish(context.DeadlineExceeded) })
 			defer tm.Stop()
+		}
+	case spec.CtxKind == "cause":
+		// the lane's context, or an ancestor of it, ends with an application-defined cause:
+		// Err() is still Canceled / DeadlineExceeded, only context.Cause differs
+		if spec.Cancel.Kind == "deadline" {
+			parent, pc := context.WithTimeoutCause(base, time.Duration(spec.Cancel.DeadlineMs)*time.Millisecond, errors.New("harness: budget used up"))
+			defer pc()
+			sc.ctx, sc.cancel = context.WithCancel(context.WithValue(parent, causeKey{}, 1))
+		} else {
+			ctx, cc := context.WithCancelCause(base)
+			sc.ctx, sc.cancel = ctx, func() { cc(errors.New("harness: draining node")) }
 		}
 	case spec.Cancel.Kind == "deadline":
 		sc.ctx, sc.cancel = context.WithTimeout(base, time.Duration(spec.Cancel.DeadlineMs)*time.Millisecond)
